@@ -31,6 +31,20 @@ def o_basis(rng, n=6, which=("perm", "spg", "sum", "ortho", "compact"), max_N=(8
                         nontrivial=lambda i: i["crystal"].n_lp_expected >= 2 or len(i["crystal"].numbers) >= 2)
 
 
+def o_basis_multilattice(rng, n=4, order=4, dets=(4, 6, 8, 9), which=("perm",)):
+    """one-atom triclinic cells with MANY lattice points (all Hermite normal forms of the given determinants, shuffled
+    atom order): where orbit linking across translated copies of a combination matters (finding F2 class)"""
+    from .gen import build_supercell, hnf_matrices, random_triclinic
+    def gen():
+        for k in range(n):
+            L, B, Z = random_triclinic(rng, 1)
+            det = dets[k % len(dets)]
+            M = rng.choice(hnf_matrices(det))
+            cr = build_supercell("tric1", L, B, Z, M, rng=rng, shuffle=rng.random() < 0.5)
+            yield {"crystal": cr, "orders": [order], "cutoff": None}
+    return O.run_oracle("basis_invariants", gen(), which=which)
+
+
 def o_completeness(rng, n=6, max_N=(4, 3, 2), with_cutoff=False, orders=(2, 3, 4), hooks=None):
     def gen():
         for k in range(n):
@@ -97,6 +111,30 @@ def o_eig(rng, n=30):
 
 def o_history(rng, n=4):
     return O.run_oracle("history", O.gen_history_inputs(rng, n))
+
+
+def o_ortho_after_fit(rng, n=6):
+    def gen():
+        combos = [[2], [3], [2, 3], [3, 4], [2, 3, 4], [4]]
+        lowsym = ["wurtzite", "tetragonal2", "mono", "hcp", "ortho_inv"]
+        for k in range(n):
+            od = combos[k % len(combos)]
+            cr = crystal(rng, max_N=(6, 4, 4)[max(od) - 2], protos=lowsym)
+            yield {"crystal": cr, "orders": od, "data_seed": rng.randrange(10 ** 6), "compact": rng.random() < 0.5}
+    return O.run_oracle("ortho_after_fit", gen())
+
+
+def o_api_invalid(rng, n=4):
+    from .corr_api import ORDER_SPECS
+    def gen():
+        for k in range(n):
+            cr = crystal(rng, max_N=4, protos=["wurtzite", "tetragonal2", "mono", "hcp"])
+            N = len(cr.numbers)
+            specs = [list(x) for x in ORDER_SPECS] + [[None, [rng.choice([2, 3, 4])] * rng.randint(2, 3)],
+                                                      [None, [2, 3, 3]], [None, [3, 2, 3, 2]], [None, [4, 4]]]
+            yield {"crystal": cr, "n_snap": 40, "data_seed": rng.randrange(10 ** 6), "specs": specs,
+                   "bad_shapes": [[40, N + 1, 3], [39, N, 3], [40, N, 2], [40, N * 3]]}
+    return O.run_oracle("api_invalid", gen())
 
 
 # ------------------------------------------------------------------------------------------------ known findings
@@ -208,6 +246,11 @@ PROPS = {
         "oracle": [{"name": "basis_perm", "fn": o_basis,
                     "quick": {"n": 15, "which": ("perm",)}, "thorough": {"n": 60, "which": ("perm",), "max_N": (10, 6, 6), "min_nlp": 2},
                     "search": {"n": 30, "which": ("perm",), "max_N": (10, 6, 6)}},
+                   {"name": "basis_perm_many_lattice_points_o4", "fn": o_basis_multilattice,
+                    "quick": {"n": 4}, "thorough": {"n": 24}, "search": {"n": 16}},
+                   {"name": "basis_perm_many_lattice_points_o3", "fn": o_basis_multilattice,
+                    "quick": {"n": 3, "order": 3, "dets": (6, 8, 12)}, "thorough": {"n": 12, "order": 3, "dets": (6, 8, 9, 12)},
+                    "search": {"n": 8, "order": 3, "dets": (6, 8, 9, 12)}},
                    {"name": "fit_perm", "fn": o_fit("normal_equations"), "quick": {"n": 3}, "thorough": {"n": 12},
                     "search": {"n": 12}}],
         "trusted": [KERNELS["numpy"], KERNELS["float"]],
@@ -216,7 +259,12 @@ PROPS = {
         "lean": "SymfcModel.Props.C02", "gen": ["SumRule", "PermTables"],
         "corr": [{"fn": S.corr_coset, "quick": {"n_cases": 36}, "thorough": {"n_cases": 300}},
                  {"fn": C.corr_cell_index, "quick": {"n_cases": 15}, "thorough": {"n_cases": 90}}],
-        "oracle": [{"name": "basis_spg", "fn": o_basis, "quick": {"n": 9, "which": ("spg",), "explicit_ops": 0.5},
+        "oracle": [{"name": "basis_spg_explicit_ops", "fn": o_basis,
+                    "quick": {"n": 24, "which": ("spg",), "explicit_ops": 1.0, "min_nlp": 2, "max_N": (8, 6, 4),
+                              "orders": (2, 2, 3, 2, 3, 4)},
+                    "thorough": {"n": 48, "which": ("spg",), "explicit_ops": 1.0, "min_nlp": 2, "max_N": (10, 6, 4)},
+                    "search": {"n": 36, "which": ("spg",), "explicit_ops": 1.0, "min_nlp": 2, "max_N": (8, 6, 4)}},
+                   {"name": "basis_spg", "fn": o_basis, "quick": {"n": 9, "which": ("spg",), "explicit_ops": 0.0, "min_nlp": 1},
                     "thorough": {"n": 48, "which": ("spg",), "max_N": (10, 6, 4), "explicit_ops": 0.5},
                     "search": {"n": 36, "which": ("spg",), "explicit_ops": 0.5}}],
         "trusted": [KERNELS["eigh"], KERNELS["spglib"], KERNELS["float"]],
@@ -291,7 +339,9 @@ PROPS = {
                    {"name": "basis_ortho_large_path", "fn": o_basis,
                     "quick": {"n": 9, "which": ("ortho",), "hooks": {"eig_threshold": 5, "eig_target": 4}},
                     "thorough": {"n": 18, "which": ("ortho",), "hooks": {"eig_threshold": 5, "eig_target": 4}},
-                    "search": {"n": 24, "which": ("ortho",), "hooks": {"eig_threshold": 5, "eig_target": 4}}}],
+                    "search": {"n": 24, "which": ("ortho",), "hooks": {"eig_threshold": 5, "eig_target": 4}}},
+                   {"name": "ortho_after_fit", "fn": o_ortho_after_fit, "quick": {"n": 6}, "thorough": {"n": 30},
+                    "search": {"n": 24}}],
         "trusted": [KERNELS["eigh"], KERNELS["float"]],
     },
     "C10": {
@@ -316,7 +366,9 @@ PROPS = {
     "C12": {
         "lean": "SymfcModel.Props.C12", "gen": ["Api", "Solver"],
         "corr": [{"fn": corr_api.corr_api, "quick": {"n_hist": 40}, "thorough": {"n_hist": 300, "hist_len": 9}}],
-        "oracle": [{"name": "history", "fn": o_history, "quick": {"n": 8}, "thorough": {"n": 40}, "search": {"n": 24}}],
+        "oracle": [{"name": "history", "fn": o_history, "quick": {"n": 8}, "thorough": {"n": 40}, "search": {"n": 24}},
+                   {"name": "basis_untouched_by_fit", "fn": o_ortho_after_fit, "quick": {"n": 6}, "thorough": {"n": 24},
+                    "search": {"n": 18}}],
         "trusted": [KERNELS["eigh"], KERNELS["posv"], "solver results are deterministic functions of their arguments (modelled as tokens)"],
     },
     "C13": {
@@ -345,7 +397,7 @@ PROPS = {
         "lean": "SymfcModel.Props.C16", "gen": ["Api"],
         "corr": [{"fn": corr_api.corr_check_orders, "rng": False, "quick": {}, "thorough": {}},
                  {"fn": corr_api.corr_api, "quick": {"n_hist": 40}, "thorough": {"n_hist": 300, "hist_len": 9}}],
-        "oracle": [],
+        "oracle": [{"name": "api_invalid", "fn": o_api_invalid, "quick": {"n": 3}, "thorough": {"n": 16}, "search": {"n": 8}}],
         "trusted": ["solver calls succeed or raise before returning (modelled)"],
     },
 }
